@@ -178,7 +178,31 @@ impl GetLeadingTrivia for TokenReference { }
             Hole(ARG_LOOP, "arguments = strip_leading_whitespace_of_arguments(arguments);", kind="mutating-loop-abstraction", why="for over pairs_mut() that only rewrites each argument's leading whitespace (DESIGN §3 rule 4c)"),
             Hole("arguments.push(Pair::new(new_expression, None));", "push_end(&mut arguments, new_expression);", kind="wrapper", why="Punctuated::push(Pair::new(.., None))", count=2),
         ]),
-        Fn(FUN, "format_method_call", mode="stub"),
+        Raw(node_specs("MethodCall", "n_mc", [("colon_token", "TokenReference", "-"), ("name", "TokenReference", "ref"), ("args", "FunctionArgs", "ref")]) + """
+pub assume_specification [MethodCall::new] (name: TokenReference, args: FunctionArgs) -> (r: MethodCall) ensures n_mc_name(&r) == name, n_mc_args(&r) == args;
+pub open spec fn mc_wf(m: &MethodCall) -> bool { args_wf(n_mc_args(m)) }
+// a method call: the same method name, the arguments in the form format_function_args decides, and — unless a line comment behind the
+// name puts them on a new line of their own — separated from the name as space_after_function_names says
+pub open spec fn mc_post(c: Config, m: &MethodCall, obscure: bool, r: &MethodCall, name_open: bool) -> bool {
+    tok_of(n_mc_name(r)) == tok_of(n_mc_name(m))
+    && args_sem(n_mc_args(r)) == args_sem(n_mc_args(m)) && (n_mc_args(r) is Parentheses) == !wants_sugar(c, n_mc_args(m), obscure)
+    && (!name_open ==> separated(n_mc_args(r), spaces_tt(if c.space_after_function_names is Always || c.space_after_function_names is Calls { 1 } else { 0 })))
+    && (name_open ==> puts_on_new_line(args_lead(n_mc_args(r))))
+}
+pub uninterp spec fn name_has_line_comment(t: TokenReference) -> bool;    // has_trailing_comments(CommentSearch::Single) on the method name
+#[verifier::external_body] pub fn name_trailing_line_comment(t: &TokenReference) -> (r: bool) ensures r == name_has_line_comment(*t) { unimplemented!() }
+""", module="formatters::functions"),
+        Fn(EX, "process_dot_name", mode="stub", contract="ensures tok_of(r.1) == tok_of(*name),", note="moves comments between `:` and the name in front of the `:`; the name token itself is format_token_reference's"),
+        Fn(FUN, "format_method_call", contract="""
+    requires mc_wf(method_call),
+    ensures mc_post(ctx.config, method_call, call_next_node is ObscureWithoutParens, &r, name_has_line_comment(n_mc_name(method_call))), //# C11.method_call_form
+""", edits=[
+            Hole("(colon_token.to_string().len() + name.to_string().len())", "hole_usize()", why="Display widths of `:` and the name"),
+            Hole("""method_call
+        .name()
+        .has_trailing_comments(CommentSearch::Single)""", "name_trailing_line_comment(method_call.name())", kind="wrapper", why="GetTrailingTrivia default method (iterator chain)"),
+            Hole("&formatted_function_args.leading_trivia()", "verif_args::lead_of_args(&formatted_function_args).as_slice()", kind="wrapper", why="GetLeadingTrivia::leading_trivia of the arguments' first token (iterator chain)", optional=True),
+        ]),
         Fn(FUN, "format_call", contract="""
     requires call_wf(*call),
     ensures call_post(ctx.config, *call, call_next_node is ObscureWithoutParens, r), //# C11.call_form
@@ -186,7 +210,7 @@ impl GetLeadingTrivia for TokenReference { }
             Hole("&formatted_function_args.leading_trivia()", "verif_args::lead_of_args(&formatted_function_args).as_slice()", kind="wrapper", why="GetLeadingTrivia::leading_trivia of the arguments' first token (iterator chain)", optional=True),
         ]),
         Raw("""
-pub open spec fn call_wf(c: Call) -> bool { match c { Call::AnonymousCall(a) => args_wf(a), _ => true } }
+pub open spec fn call_wf(c: Call) -> bool { match c { Call::AnonymousCall(a) => args_wf(a), Call::MethodCall(m) => mc_wf(&m), _ => true } }
 pub open spec fn call_post(c: Config, call: Call, obscure: bool, r: Call) -> bool {
     match call {
         Call::AnonymousCall(a) => match r {
@@ -195,7 +219,7 @@ pub open spec fn call_post(c: Config, call: Call, obscure: bool, r: Call) -> boo
                 // (behind comments that end the line, the arguments are indented on their own line instead)
                 && separated(ra, spaces_tt(if c.space_after_function_names is Always || c.space_after_function_names is Calls { 1 } else { 0 })),
             _ => false },
-        Call::MethodCall(_) => r is MethodCall,
+        Call::MethodCall(m) => match r { Call::MethodCall(rm) => mc_post(c, &m, obscure, &rm, name_has_line_comment(n_mc_name(&m))), _ => false },
         _ => true,
     }
 }
@@ -211,6 +235,7 @@ LABELS = {
     "C03.args_conversion_keeps_comments": dict(props=["C03"], text="parentheses are only dropped when neither parenthesis carries a comment that would disappear with it"),
     "C10.separator_or_indent": dict(props=["C10", "C11"], text="separator_or_indent: behind a line break the separator is the indent of the new line (never a space in front of the indentation), nothing where the line is already indented, and the wanted separator otherwise"),
     "C10.sugar_argument_separated": dict(props=["C10", "C11"], text="format_function_args: a string / table argument written without parentheses is separated from the function name by one space, or indented on its own line behind comments"),
+    "C11.method_call_form": dict(props=["C11", "C02", "C10"], text="format_method_call: the same method name and arguments, the arguments in the form format_function_args decides, separated from the name as space_after_function_names says (indented on their own line behind comments; on a new line behind a line comment on the name)"),
     "C11.call_form": dict(props=["C11", "C02"], text="format_call: an anonymous call's arguments get the form format_function_args decides, same arguments"),
 }
 
